@@ -189,7 +189,7 @@ impl Property for P {
     }
     fn cases(tier: Tier) -> u64 {
         match tier {
-            Tier::Quick => 120,
+            Tier::Quick => 240,
             Tier::Thorough => 2_000,
         }
     }
@@ -333,17 +333,36 @@ impl Property for P {
             let threshold: u32 = match limits {
                 None => 0,
                 Some((k, m)) => {
-                    let direct = cfg.nam().is_some_and(|n| !n.rename_style());
-                    let keep = k + m + usize::from(!direct);
-                    let mut firsts: Vec<u32> = Vec::new();
-                    for f in &after_kill.fam {
-                        let text = String::from_utf8_lossy(&f.content).to_string();
-                        let first_rec = text.lines().filter_map(|l| l.split(':').nth(1).and_then(|x| x.parse::<u32>().ok())).next();
-                        firsts.push(first_rec.unwrap_or(u32::MAX));
+                    // first record of every rotated file (for direct namings the current
+                    // file is one of them, and the listing the limits apply to contains it)
+                    let firsts: Vec<u32> = after_kill
+                        .fam
+                        .iter()
+                        .filter(|f| matches!(f.parsed.kind, Kind::Rotated(_)))
+                        .map(|f| {
+                            String::from_utf8_lossy(&f.content)
+                                .lines()
+                                .filter_map(|l| l.split(':').nth(1).and_then(|x| x.parse::<u32>().ok()))
+                                .next()
+                                .unwrap_or(u32::MAX)
+                        })
+                        .collect();
+                    let keep = (k + m).min(firsts.len());
+                    if keep == 0 {
+                        // every rotated file may be gone: only the current file must be complete
+                        after_kill
+                            .fam
+                            .iter()
+                            .filter(|f| !matches!(f.parsed.kind, Kind::Rotated(_)))
+                            .filter_map(|f| String::from_utf8_lossy(&f.content).lines().filter_map(|l| l.split(':').nth(1).and_then(|x| x.parse::<u32>().ok())).next())
+                            .min()
+                            .unwrap_or(u32::MAX)
+                    } else {
+                        // the files are in semantic order: whatever is older than the newest
+                        // `keep` rotated files may already be gone (in the steady state exactly
+                        // `keep` rotated files exist and everything older was removed)
+                        firsts[firsts.len() - keep..].iter().copied().min().unwrap_or(u32::MAX)
                     }
-                    // the files are in semantic order: the newest `keep` files (incl. current)
-                    let idx = firsts.len().saturating_sub(keep.max(1));
-                    firsts[idx..].iter().copied().min().unwrap_or(u32::MAX)
                 }
             };
             let mut lost = None;
